@@ -41,6 +41,10 @@ def gen_source(c, indent=''):
                       f'{ind}    return getattr(self, "_{name}", 0)']
             if has_set:
                 lines += [f'{ind}@{name}.setter', f'{ind}def {name}(self, v{": int" if ann_set else ""}):', f'{ind}    self._{name} = v']
+        elif k == 'broken':
+            # a member beartype cannot decorate (an integer is no type hint): under warning_cls_on_decorator_exception it is left
+            # as it is, with a warning, and every other member is decorated all the same
+            lines += [f'{ind}def {name}(self, x: 0xBAD):', f'{ind}    """doc of {name}"""', f'{ind}    return x']
         elif k == 'nested':
             lines += gen_source(m[1], ind)
         elif k == 'foreign':
@@ -105,7 +109,7 @@ def call_outcomes(cls, c):
         res = []
         for arg in (1, 'bad'):
             try:
-                if k in ('func', 'classmethod', 'staticmethod'):
+                if k in ('func', 'classmethod', 'staticmethod', 'broken'):
                     r = getattr(inst, name)(arg)
                     res.append('ok' if r is arg else 'changed')
                 elif k == 'property':
@@ -169,7 +173,8 @@ def snapshot_nested(before, prefix):
 
 
 def run(case):
-    conf = BeartypeConf(strategy=BeartypeStrategy.O0) if case.get('O0') else BeartypeConf()
+    conf = BeartypeConf(strategy=BeartypeStrategy.O0) if case.get('O0') else \
+        BeartypeConf(warning_cls_on_decorator_exception=UserWarning) if case.get('warn_decor') else BeartypeConf()
     src = '\n'.join(gen_source(case['base']) + gen_source(case['cls'])) if case.get('base') else '\n'.join(gen_source(case['cls']))
     from typing import no_type_check
     envA = {'beartype': beartype, 'no_type_check': no_type_check, 'Foreign': Foreign}
